@@ -96,8 +96,8 @@ namespace sim
          case SET_BUF1:
          case SET_BUF64: return CAP_DEPTH | CAP_COLUMN | CAP_STATE | CAP_PLAINCTL | CAP_REMATCH | CAP_CTLSWITCH | CAP_PRIVSTATE;
          case SET_LAZY: return CAP_MEMORY | CAP_SETEND | CAP_DEPTH | CAP_STATE | CAP_PLAINCTL | CAP_CTLSWITCH | CAP_PRIVSTATE;
-         case SET_TREE:
-         case SET_TREE_UW: return CAP_MEMORY | CAP_SETEND | CAP_DEPTH | CAP_COLUMN | CAP_PRIVSTATE | CAP_TREEOPS;
+         case SET_TREE: return CAP_MEMORY | CAP_SETEND | CAP_DEPTH | CAP_COLUMN | CAP_PRIVSTATE | CAP_TREEOPS;
+         case SET_TREE_UW: return CAP_MEMORY | CAP_SETEND | CAP_DEPTH | CAP_PRIVSTATE | CAP_TREEOPS;  // lazy tracking: no column()
          case SET_COV: return CAP_MEMORY | CAP_SETEND | CAP_DEPTH | CAP_COLUMN;
          default: return 0;
       }
